@@ -385,6 +385,12 @@ def oracle(ck, tier, deep):
             theta = np.sort(rng.uniform(-np.pi, np.pi, size=int(rng.integers(400, 900))))
             inten = A * (1 + beta * (3 * np.cos(theta) ** 2 - 1) / 2)
             nth = len(theta)
+        # (the curve must determine β: at least two angles inside the ranges, with different P2 — one angle, or a cluster, does not)
+        sel_ = np.ones(len(theta), bool) if tr is None else np.any([(theta >= lo_) & (theta <= hi_) for lo_, hi_ in tr], axis=0)
+        p2_ = (3 * np.cos(theta[sel_]) ** 2 - 1) / 2
+        if sel_.sum() < 2 or p2_.max() - p2_.min() < 1e-3:
+            continue
+        narrow = p2_.max() - p2_.min() < 0.3                     # (the fit's own tolerances times the conditioning of a narrow window)
         ck.count(("S.beta", tr is None, round(beta)), suite="S.anisotropy")
         try:
             mode = ["raw", "reject", None, "bound"][int(rng.integers(0, 4))]        # None: the default
@@ -392,9 +398,35 @@ def oracle(ck, tier, deep):
         except Exception as e:
             ck.violation(dict(site="anisotropy_parameter", clause="exception"), dict(beta=beta, A=A), f"{type(e).__name__}: {e}")
             continue
-        if not (abs(b - beta) <= 1e-6 and abs(a - A) <= 1e-6 * A):
+        tolb = 1e-4 if narrow else 1e-6
+        if not (abs(b - beta) <= tolb and abs(a - A) <= tolb * A):
             ck.violation(dict(site="anisotropy_parameter", clause="beta"), dict(beta=beta, A=A, n=nth, theta_ranges=tr, mode=mode, theta=theta.tolist()),
                          f"fitted (beta, A) = ({b}, {a}) for a noiseless curve with ({beta}, {A}), mode={mode}")
+    # a window holding only two to four angles still determines β (two parameters): every mode returns it — 'bound' too, which is documented
+    # to return the best value inside the range, not NaN (repair F74; a fixed set of 400 such curves, the same on every run)
+    rng_f = np.random.default_rng(20260930)
+    done_ = 0
+    while done_ < (400 if not deep else 1500):
+        nth = int(rng_f.integers(100, 400))
+        theta = np.sort(rng_f.uniform(-np.pi, np.pi, size=nth))
+        beta, A = float(rng_f.choice([-1.0, 2.0, rng_f.uniform(-1, 2)])), float(rng_f.uniform(0.1, 50))
+        tr = [[(1.5, 1.64)], [(0.9, 1.0)]][done_ % 2]
+        sel_ = (theta >= tr[0][0]) & (theta <= tr[0][1])
+        p2_ = (3 * np.cos(theta[sel_]) ** 2 - 1) / 2
+        if not 2 <= sel_.sum() <= 4 or p2_.max() - p2_.min() < 1e-3:
+            continue
+        done_ += 1
+        inten = A * (1 + beta * (3 * np.cos(theta) ** 2 - 1) / 2)
+        mode = ["bound", "raw"][done_ % 4 == 0]
+        ck.count(("S.beta-few", int(sel_.sum()), round(beta), mode), suite="S.anisotropy")
+        try:
+            (b, db), (a, da) = quiet(vmi.anisotropy_parameter, theta, inten, theta_ranges=tr, mode=mode)
+        except Exception as e:
+            ck.violation(dict(site="anisotropy_parameter", clause="exception"), dict(beta=beta, A=A, mode=mode), f"{type(e).__name__}: {e}")
+            continue
+        if not (abs(b - beta) <= 1e-4 and abs(a - A) <= 1e-4 * A):
+            ck.violation(dict(site="anisotropy_parameter", clause="beta-few-angles"), dict(beta=beta, A=A, n=nth, angles_in_window=int(sel_.sum()), theta_ranges=tr, mode=mode, theta=theta.tolist()),
+                         f"fitted (beta, A) = ({b}, {a}) for a noiseless curve with ({beta}, {A}) and {int(sel_.sum())} angles inside {tr}, mode={mode}")
 
 
 def run(tier):
